@@ -67,7 +67,9 @@ claim("C19", module="props.c19", category="proof",
            "map of the linked list, sorted-entry view of each queue): CharacteristicsQueue wrappers against the ASSUMED "
            "depq.DEPQ contract; SearchData / SearchDataDualQueue __init__, InsertFirstDataItem, InsertDataItem (hinted and "
            "hintless), FindDataItemByOneDimensionalPoint (loop invariant over the iterator protocol), __iter__/__next__, "
-           "RefillQueue (loop invariant), ClearQueue, GetCount, GetLastItem, GetDataItemWithMaxGlobalR: well-formedness "
+           "RefillQueue (loop invariant), ClearQueue, GetCount, GetLastItem, GetDataItemWithMaxGlobalR, the dual-queue "
+           "GetDataItemWithMaxGlobalR/LocalR (while-loop invariant for the lazy invalidation of stale entries, with variant): "
+           "well-formedness "
            "(order, links, positions, count) is an object invariant preserved by every operation, lookup returns the first "
            "item to the right, a best request returns a maximal entry. Safety obligations (no None dereference, index in "
            "range) included.",
